@@ -23,6 +23,8 @@ ASSUMPTIONS = [
     "compact targets (MultiSynth.transpose): windows within 0..max-min, the unit in which the helper itself builds them",
     "generated curves are monotone non-decreasing sequences of 257 values in 0..0x8000",
 ]
+# classes of cases that are produced deterministically: their absence is a harness error (see vlib.harness)
+HARD_LABELS = ['macro_single', 'every_range_shape_with_edge_windows', 'macro_too_many', 'macro_duplicate']
 REQUIRED_LABELS = {
     "quick": ["macro_single", "macro_multi", "macro_too_many", "macro_duplicate", "axis_normal", "axis_reversed", "unset_mapping_link", "curve_custom", "quantized", "convert_direct", "freed_slot_link", "link_to_controllerless_module", "multictl_out_offset_negative", "multictl_out_offset_set", "compact_target_before_other_target", "mixed_range_kinds_in_one_fanout", "every_range_shape_with_edge_windows", "windows_edited_in_place_then_swept_again", "chained_multictl"],
     "thorough": ["macro_single", "macro_multi", "macro_too_many", "macro_duplicate", "axis_normal", "axis_reversed", "unset_mapping_link", "curve_custom", "quantized", "convert_direct", "compact_target"],
